@@ -101,7 +101,7 @@ func drawNetOps(t *rapid.T, label string, n, nIn, nSensors int, fast bool) []Net
 
 func GenC13() *rapid.Generator[C13Case] {
 	cyc := genNet(NetCfg{Cyclic: true, ParallelLinks: true, Rename: true, BigRecurrent: true})
-	dag := genNet(NetCfg{Rename: true, Wide: true})
+	dag := genNet(NetCfg{Rename: true, Wide: true, FlaggedLinks: true, ManyIO: true})
 	mod := genGenomeSpec(GenomeCfg{Modules: true, MinGenes: 1, SingleOutMod: true, ModestWeight: true, AllEnabled: false})
 	return rapid.Custom(func(t *rapid.T) C13Case {
 		c := C13Case{Fast: rapid.Bool().Draw(t, "fast solver")}
